@@ -2,6 +2,7 @@
 from lib import recdsl as rd
 from props.rec_common import *  # noqa: F401,F403
 from props import race_common as rc
+from props import rec2_cases as r2
 from props.c04 import static_gate  # noqa: F401  (atomic-region reduction of the racing-threads model)
 
 ID = "C05"
@@ -12,7 +13,9 @@ RULE = ("one case = recorded operations (faults, discards, sampling outcomes, or
         "program; histories of three operations of one process whose intercepted inputs get equal-but-differently-typed "
         "arguments (1 / True / 1.0, 0 / False / 0.0, pairs of them; same or different functions; every order), saved to a "
         "file cassette and replayed in the recording process AND in another interpreter (also the last replay of ten of the "
-        "random histories); non-trivial = at least one interception or fault; distinct = distinct history")
+        "random histories); a file cassette after operations that captured a value the serializer refuses (input result / output "
+        "argument / record_data value / operation result; kind file_store, implementation only): every created recording is "
+        "fetched whole or is absent, the category lookup lists exactly the whole ones and each of them replays; non-trivial = at least one interception or fault; distinct = distinct history")
 ASSUMPTIONS = ["a cassette whose create_new_recording / abort_recording raise is outside the tolerated fault list",
                "threads: as for C04 - the methods that touch the active recording are modelled access by access "
                "(Recorder/Threads.v), any number of threads, any schedule, a locked region is one step; the program-level "
@@ -100,6 +103,8 @@ def equal_arguments_history(rng, k):
 
 
 def to_gallina(case, obs):     # noqa: F811
+    if r2.is_rec2(case):
+        return None          # (implementation only: the store's own state is outside the model)
     if rc.is_race(case):
         return rc.to_gallina(case, obs)
     from props import rec_common
@@ -108,6 +113,8 @@ def to_gallina(case, obs):     # noqa: F811
 
 
 def explain(case, obs):        # noqa: F811
+    if r2.is_rec2(case):
+        return "0%nat"
     if rc.is_race(case):
         return rc.explain(case, obs)
     from props import rec_common
@@ -118,6 +125,8 @@ _hist_features, _hist_nontrivial = features, nontrivial     # (from rec_common)
 
 
 def features(case):      # noqa: F811
+    if r2.is_rec2(case):
+        return r2.features(case)
     if rc.is_race(case):
         return rc.features(case)
     fs = _hist_features(case)
@@ -129,11 +138,11 @@ def features(case):      # noqa: F811
 
 
 def nontrivial(case):    # noqa: F811
-    return True if rc.is_race(case) else _hist_nontrivial(case)
+    return True if rc.is_race(case) or r2.is_rec2(case) else _hist_nontrivial(case)
 
 
 def shrink_candidates(case):     # noqa: F811
-    if rc.is_race(case):
+    if rc.is_race(case) or r2.is_rec2(case):
         return
     from props import rec_common
     for c in rec_common.shrink_candidates(case):
@@ -167,6 +176,8 @@ def generate(rng, tier):
             c["cassette"] = "file"
             c["runs"][-1]["fresh_process"] = True
             done += 1
+    # the store itself after saves that fail in the encoder (persistent cassette; lookup and replay of the good recordings)
+    cases += r2.file_store_cases()
     return cases
 
 
@@ -175,6 +186,8 @@ def direct(case, obs):
         return [("driver", obs["driver_exception"] + obs.get("trace", "")[-400:])]
     if rc.is_race(case):
         return rc.direct_finalisation(case, obs)
+    if r2.is_rec2(case):
+        return r2.direct_file_store(case, obs)
     if f07c_affected(obs):
         return []          # region of known finding F07c (reported by C01): nothing is concluded from such a case
     fails = []
